@@ -186,6 +186,30 @@ Fixpoint strict_loop (fuel : nat) (s : list N) : option (list request) :=
 Definition strict_h1 (s : list N) : option (list request) := strict_loop (S (List.length s)) s.
 
 (* ------------------------------------------------------------------ *)
+(** * (a') what sozu's own callback refuses on the HTTP/1 frontend
+
+    [editor.rs] [h1_framing_violation] + the method check of
+    [on_request_headers]: run on the header blocks kawa's H1 parser hands over,
+    before anything is forwarded; a violation is answered 400. *)
+
+Definition is_nil {A} (l : list A) : bool := match l with [] => true | _ => false end.
+
+Fixpoint guard_fields (te_seen : bool) (hs : list header) : bool :=
+  match hs with
+  | [] => true
+  | (k, v) :: t =>
+    if is_nil k || negb (forallb is_tchar k) then false
+    else if eq_nc k (B "transfer-encoding") then
+      if te_seen || negb (eq_nc v (B "chunked")) then false else guard_fields true t
+    else if eq_nc k (B "content-length") then
+      if is_nil v || negb (forallb is_digit v) then false else guard_fields te_seen t
+    else guard_fields te_seen t
+  end.
+
+Definition h1_guard (method : list N) (hs : list header) : bool :=
+  negb (is_nil method) && forallb is_tchar method && guard_fields false hs.
+
+(* ------------------------------------------------------------------ *)
 (** * (b) pkawa::handle_header, request side *)
 
 Definition has_invalid_name_byte (n : list N) : bool :=
